@@ -227,14 +227,25 @@ class Ctx:
             last = {}
             phases = [Phase.generate, Phase.shrink] if sub.shrink else [Phase.generate]
 
+            shrink_budget = 15.0 if self.tier == "quick" else 60.0
+
             def make_body(_sub, _last, _t):
                 def body(case):
                     if _sub.budget_s and time.time() - _t > _sub.budget_s and not _last.get("failing"):
                         self.counters["skipped_budget"] += 1
                         return
+                    if _last.get("failing") and time.time() - _last["t_first"] > shrink_budget:
+                        # shrink budget used up (Hypothesis' own cap is 5 minutes): only the best failing
+                        # case found so far still fails, so the shrinker stops and the final replay reproduces
+                        if canonical(case) != _last["canon"]:
+                            self.counters["shrink_budget_skips"] += 1
+                            return
                     bad = self.run_case(_sub, case)
                     if bad:
+                        if not _last.get("failing"):
+                            _last["t_first"] = time.time()
                         _last["case"] = case
+                        _last["canon"] = canonical(case)
                         _last["records"] = bad
                         _last["failing"] = True
                         raise Violation(bad[0]["signature"])
